@@ -433,6 +433,8 @@ def check_main(argv):
             "known_findings_enabled": enabled,
             "counters": merged["extra"],
             "shards": shards,
+            "budget_per_shard": {"max_examples": bud["examples"], "generation_time_s": int(os.environ.get("VERIF_TIME_BUDGET") or bud.get("time_budget", 0)),
+                                 "shrink_calls": bud.get("shrink_calls")},
             "shards_dead": dead,
             "harness_errors": len(herrs),
             "nonreproducible_in_fresh_process": len(nonrepro),
